@@ -97,6 +97,7 @@ def trusted_scan(text):
 def run_property(prop, tier, repo, scratch, units, only_units=None):
     """returns dict with per-unit results"""
     mine = [u for u in units.values() if prop in u["properties"]]
+    assemble.ACTIVE_PROP = prop
     if only_units:
         mine = [u for u in mine if u["name"] in only_units]
     jobs = []
